@@ -352,7 +352,10 @@ func (zp *ZoneParser) next() (RR, bool) {
 	st := zExpectOwnerDir // initial state
 	h := &zp.h
 
+	var last lex
 	for l, ok := zp.c.Next(); ok; l, ok = zp.c.Next() {
+		last = l
+
 		// zlexer spotted an error already
 		if l.err {
 			return zp.setParseError(l.token, l)
@@ -747,6 +750,11 @@ func (zp *ZoneParser) next() (RR, bool) {
 
 			return rr, true
 		}
+	}
+
+	if st != zExpectOwnerDir && zp.c.Err() == nil {
+		// The input ends in the middle of an entry or directive.
+		return zp.setParseError("unexpected end of input", last)
 	}
 
 	// If we get here, we and the h.Rrtype is still zero, we haven't parsed anything, this
